@@ -12,7 +12,7 @@ SK_AA_Q = ['C', 'CO', 'CCC', 'C(C)C', 'C1CC1', 'CCl', 'C[O-]', '[NH3+]C', 'C=C',
            'C=1CC1', 'C=1CCCC1', 'C1CC=1C', 'cc-cc', 'c1ccccc1-c1ccccc1', 'CSc1ccccc1', 'Cn1cccc1', 'C12C3C4C1C5C2C3C45']
 SK_AA_T = SK_AA_Q + ['C1CCC1C', 'CC(C)(C)C', 'OC(=O)c1ccccc1', 'C#CC', 'ccc', 'Cc1ccccc1', 'N1CC1=O', 'CS(=O)(=O)C']
 SK_CG_Q = ['[#A]', '[#A][#B]', '[#A]([#B])[#C]', '[#A]1[#B][#C]1', '[#A]=[#B]', '[#A]=1[#B][#C]1', '[#A]1[#B][#C]=1',
-           '[#A]12[#B]3[#C]4[#D]1[#E]5[#F]2[#G]3[#H]45']
+           '[#A]12[#B]3[#C]4[#D]1[#E]5[#F]2[#G]3[#H]45', '[#A]1=2[#B][#C]2[#D]1', '[#A]=1.2[#B][#C]2[#D]1']
 SK_CG_T = SK_CG_Q + ['[#A][#B]([#C])[#D]', '[#A]1[#B]2[#C]1[#D]2', '[#A].[#B]']
 # complete strings whose last level consists of beads (resolved and written with last_all_atom=False); '@l' is a label hole
 FULL_CG = [
